@@ -31,7 +31,7 @@ func TestC38(t *testing.T) {
 	c.Floor("host_account_writes", 30)
 	c.Floor("controller_account_writes", 30)
 
-	n := c.N(26, 100)
+	n := c.N(36, 100)
 	var e *Env
 	inWorld := 0
 	actorNo := 0
